@@ -7,19 +7,82 @@ VERIF = pathlib.Path(__file__).resolve().parent.parent
 ALL = [f"C{i:02d}" for i in range(1, 31)]
 
 # pid -> (category, technique, level text, level note, design section)
-CHECKS = {
-    "C27": (
-        "exploration",
-        "Hypothesis property test against a reference tokenisation/validity predicate",
-        "Generated (text, width) pairs checked against an executable statement of the three clauses "
-        "(text preserved, width respected except single-token segments, no dangling article); "
-        "100k cases per quick run, millions in thorough. Gives high confidence for a small pure function; "
-        "does not prove absence.",
-        "Trusts Python str.split semantics and the reading of 'word' as the space-separated token "
-        "(article glued to following word) documented in the function.",
-        "DESIGN.md §2 C27",
-    ),
+EXPL = ("Generated-input search (Hypothesis, sharded over 16 processes) against an explicit oracle; failures are bucketed by "
+        "root cause, matched against known_findings.jsonl, shrunk and written as replay files. Gives confidence proportional "
+        "to the explored domain stated in the evidence 'rule'; it never establishes absence of defects outside it.")
+
+# pid -> (category, technique, level text, level note)
+T = {
+    "C01": ("grammar-based generation + near-miss mutation + atheris byte fuzzing; totality oracle",
+            "trusts the bucketing of exceptions by innermost repository frame; CPython parser limits are out of scope"),
+    "C02": ("generated accepted meta-models x 8 targets + smoke; crash/exit-status oracle",
+            "minimal snippet sets; known unsupported-feature assertions are listed findings"),
+    "C03": ("generated runs incl. subprocess CLIs; exit-status/report-shape oracle + metamorphic 'no error dropped'",
+            "single-line diagnostics count as degenerate reports"),
+    "C04": ("location-aware mutation operators; absolute oracle from Python ast + metamorphic line shift",
+            "expected positions computed by CPython's ast on the mutated text"),
+    "C05": ("generated class/primitive DAGs; reference model of inheritance computed from the spec graph",
+            "reference closure/stacking written from the property text"),
+    "C06": ("single-rule mutation of valid models; independent rule checker (differential)",
+            "rule table written from the documented rules; reserved-name lists are a frozen snapshot"),
+    "C07": ("typed invariant grammar with randomised Optional guards; original lambdas executed as Python on conforming instances",
+            "'accepted' includes infer_for_invariant; meta-model text executed with recording stubs"),
+    "C08": ("reference-model differential: generated Python SDK vs original lambdas executed as Python",
+            "reference semantics = exec of the meta-model with stubs + spec-graph walk"),
+    "C09": ("cross-SDK differential: TypeScript/Java/C++ drivers vs Python SDK on generated documents",
+            "Python SDK is the reference (itself checked by C08/C10); core numeric domain only"),
+    "C10": ("round-trip + mutated-document rejection on the imported Python SDK",
+            "XML-representable text only for XML; lenient acceptance of some mutations is tolerated (listed)"),
+    "C11": ("generated schema validated by jsonschema metaschema + SDK documents of invariant-satisfying instances",
+            "UTF-16 code-unit pattern convention implemented in the validator"),
+    "C12": ("single violating edit of valid documents must fail JSON-Schema validation",
+            "byte-array length edits excluded as the property says"),
+    "C13": ("generated XSD built by xmlschema (1.0 and 1.1) + SDK XML documents + pattern translation via elementpath",
+            "xmlschema/elementpath are the trusted XSD processors"),
+    "C14": ("single violating edit of valid XML documents must fail XSD validation",
+            "descendant tightenings of inherited properties excluded as the property says"),
+    "C15": ("tag-based reference conjunction vs inferred Constraints, pointwise on sampled values",
+            "recognised/near-miss tags come from the generator, evaluated with Python re/len/set"),
+    "C16": ("regex AST generation with independent renderer + near-miss strings + atheris; re as oracle",
+            "Python re is the reference matcher"),
+    "C17": ("astral-biased regex generation; re on code points vs re on UTF-16 code units",
+            "core vs extended domain as stated in the evidence"),
+    "C18": ("Pike-VM reference interpreter + compiled C++ matcher vs re.fullmatch-style oracle",
+            "interpreter written from the instruction docstrings; strings without line breaks"),
+    "C19": ("literal round-trip through each language's own reader (python compile, g++, javac, node) and spec-derived C#/Go decoders",
+            "C# and Go decoders are written from the language specifications (no compiler available)"),
+    "C20": ("adversarial descriptions/values; every generated file parsed by the language's parser or a spec-derived lexer",
+            "C#/Go: lexical well-formedness only"),
+    "C21": ("planted colliding identifier pairs; expectation from naming functions + observation on generated output",
+            "declared names extracted per target by parser/introspection/regex"),
+    "C22": ("metamorphic: same input under different hash seeds, output dirs, snippet listing orders must give identical results",
+            "subprocess runs with PYTHONHASHSEED; Path.glob patched in-process"),
+    "C23": ("stateful (RuleBasedStateMachine) histories of cached/uncached runs vs fresh-TMPDIR reference; audit hooks",
+            "file-system accesses observed with sys.addaudithook"),
+    "C24": ("exhaustive enumeration of 2-thread schedules x crash points over wrapped fs operations + sampled N=3, real-process kills",
+            "yield points = wrapped pathlib/pickle calls on the cache directory"),
+    "C25": ("generated directory trees vs reference model of the loader",
+            "str.strip() whitespace notion; symlinks to regular files are regular files"),
+    "C26": ("generated flows x condition-outcome sequences; structured interpreter vs state machine (+ compiled C++)",
+            "state-machine semantics as relied upon by the C++ emitter"),
+    "C27": ("Hypothesis property test against a reference tokenisation/validity predicate",
+            "word = space-separated token; article glued to following word"),
+    "C28": ("generated models incl. late errors; smoke verdict vs front end / inference / C# generation + recorded cases replay",
+            "C# generation observed through the csharp target with dummy snippets"),
+    "C29": ("reference traversal over the spec vs descend/visitor/transformer/accessors of the imported SDK",
+            "identity comparison of SDK objects"),
+    "C30": ("generated constants/sets/enumerations vs imported constants, types, stringification modules",
+            "SDK naming convention re-implemented"),
 }
+
+FAULT = {"C24"}
+# checks that are quiet on the current tree (registered); the others stay under not_applicable until they are
+READY = ["C27"]
+
+CHECKS = {}
+for pid in READY:
+    tech, note = T[pid]
+    CHECKS[pid] = ("fault_enumeration" if pid in FAULT else "exploration", tech, EXPL, note, f"DESIGN.md §2 {pid}")
 
 NOT_YET = "check not built yet in this round (planned, see DESIGN.md §2); not claimed until its oracle is sound"
 
